@@ -185,10 +185,17 @@ class Folder:
                             env[v.func.value.id] = Unknown('list mutation failed')
         elif isinstance(st, (ast.If, ast.Try, ast.With, ast.For, ast.While)):
             # not used at module level for constants in this repo; names
-            # bound inside become Unknown.
+            # bound or mutated inside become Unknown.
             for n in ast.walk(st):
                 if isinstance(n, ast.Name) and isinstance(n.ctx, ast.Store):
                     env[n.id] = Unknown('bound under control flow')
+                if isinstance(n, ast.Subscript) and isinstance(n.ctx, (ast.Store, ast.Del)) \
+                        and isinstance(n.value, ast.Name):
+                    env[n.value.id] = Unknown('mutated under control flow')
+                if isinstance(n, ast.Call) and isinstance(n.func, ast.Attribute) \
+                        and isinstance(n.func.value, ast.Name) and n.func.attr in (
+                            'append', 'extend', 'insert', 'update', 'setdefault', 'pop', 'remove', 'add'):
+                    env[n.func.value.id] = Unknown('mutated under control flow')
 
     def _bind(self, target, val, env, modname):
         if isinstance(target, ast.Name):
@@ -206,6 +213,16 @@ class Folder:
         elif isinstance(target, ast.Attribute):
             # e.g. MC._ERR_TWPRGE = ... inside functions only; ignore here
             pass
+        elif isinstance(target, ast.Subscript) and isinstance(target.value, ast.Name):
+            cur = env.get(target.value.id)
+            key = self.eval(target.slice, env, modname)
+            if isinstance(cur, dict) and not is_unknown(key) and not is_unknown(val):
+                try:
+                    cur[key] = val
+                except TypeError:
+                    env[target.value.id] = Unknown('unhashable key')
+            else:
+                env[target.value.id] = Unknown('subscript store')
 
     def _resolve_from(self, modname, level, module):
         mod = self.repo.modules[modname]
